@@ -92,6 +92,7 @@ def record_pool(pool):
     from harness.terms import concretize_value
     all_events = []
     subjects = 0
+    runtime = []
     for gi, (T, values) in enumerate(pool):
         del _verif.events[:]
         try:
@@ -104,14 +105,37 @@ def record_pool(pool):
                     s.decode_py(s.encode_py(concretize_value(v, s.reg)))
                 except Exception:  # noqa: BLE001
                     pass
+                _exercise_format(s, v, runtime)
             subjects += 1
             evs = facts_from_events(list(_verif.events), label=f"g{gi}.")
             for e in evs:
                 e.append(T)
             all_events.extend(evs)
+            for k, msg in enumerate(runtime):
+                all_events.append(["Compile", f"g{gi}.rt{k}", "runtime", [[msg, False]], [], T])
+            del runtime[:]
         finally:
             s.close()
     return all_events, subjects
+
+
+def _exercise_format(s, v, runtime):
+    """first calls of the format methods of a format-mixin class: a NameError / AttributeError of the library's own making is a fact"""
+    from harness.terms import concretize_value, get_opt
+    T = s.T
+    kind = get_opt(T[3], "mixin", "dict") if T[0] == "dc" else "dict"
+    if kind in ("dict", "plain"):
+        return
+    from harness.checks.c04 import _fmt
+    to_m, from_m, _e, _d, _p = _fmt(kind)
+    try:
+        data = getattr(concretize_value(v, s.reg), to_m)()
+        getattr(s.ann, from_m)(data)
+    except NameError as e:
+        runtime.append(f"NameError at run time: {e}")
+    except Exception as e:  # noqa: BLE001
+        if "NameError" in repr(e) or "NameError" in repr(getattr(e, "__context__", "")):
+            runtime.append(f"NameError at run time (wrapped): {getattr(e, '__context__', e)}")
 
 
 def _record_shard(args):
@@ -174,6 +198,7 @@ def run(prop, tier, seed):
     for i in range(200 if tier == "quick" else 3000):
         T = g.dataclass(g.max_depth) if i % 2 else g.type()
         pool.append((T, [g.value(T)]))
+    pool.extend(format_mixin_families())
     nshards = 16
     ctx = mp.get_context("fork")
     with ctx.Pool(nshards) as p:
@@ -222,6 +247,27 @@ def run(prop, tier, seed):
     return rep.finish({"exhaustive": False,
                        "rule": "every holder / bare type of the depth-1 grammar (quick: every 4th) + random deeper schemas + hand-written local / functional / same-named / "
                                "MappingProxyType / local-dialect subjects; distinct = distinct (loaded names, chains) fact sets"})
+
+
+def format_mixin_families():
+    """format-mixin parents (default dialect in play) with nested lazily compiled / forward-referenced / plain dataclasses:
+    the lazy stubs of NESTED classes refer to the parent's format dialect by qualified name"""
+    out = []
+    for mixin in ("msgpack", "orjson", "toml", "yaml", "json"):
+        for lazy in (False, True):
+            for flags in ([], ["dialect_flag"]):
+                cfg_in = ([["lazy", True]] if lazy else []) + ([["flags", flags]] if flags else [])
+                inner = ["dc", "Inner", [["d", ["date"], ["req"], []], ["s", ["opt", ["str"]], ["val", ["none"]], []]], cfg_in]
+                plain = ["dc", "PlainP", [["x", ["int"], ["req"], []]], [["mixin", "plain"]]]
+                later = ["dc", "Later", [["y", ["int"], ["val", ["int", 1]], []]], cfg_in]
+                outer = ["dc", "Outer", [["a", ["date"], ["req"], []], ["inner", inner, ["req"], []], ["items", ["list", inner], ["req"], []],
+                                         ["p", plain, ["req"], []], ["l", ["opt", ["fwd", "Later", later]], ["val", ["none"]], []]],
+                         [["mixin", mixin]] + ([["flags", flags]] if flags else [])]
+                val = ["obj", "Outer", [["date", 2024, 2, 29], ["obj", "Inner", [["date", 2023, 1, 2], ["none"]]],
+                                        ["list", [["obj", "Inner", [["date", 2022, 3, 4], ["str", "s"]]]]], ["obj", "PlainP", [["int", 1]]],
+                                        ["obj", "Later", [["int", 5]]]]]
+                out.append((outer, [val]))
+    return out
 
 
 def hand_written():
